@@ -168,6 +168,7 @@ def mentions(t):
         elif k == "ctor":
             out["ctors"].add(x[1])
         elif k == "closure":
+            env = x[2] if len(x) > 2 and isinstance(x[2], dict) else {}
             for n in walk(x[1]["body"]):
                 c = callee(n)
                 if c:
@@ -179,6 +180,12 @@ def mentions(t):
                         out["ctors"].add(n["ctor"])
                     elif r.get("r") == "def":
                         out["defs"].add(r["path"])
+                    elif r.get("r") == "local" and r.get("id") in env and isinstance(env[r["id"]], tuple) and env[r["id"]][0] != "closure":
+                        # a captured variable stands for the term it had when the closure was made (e.g. a helper's parameter bound to a constant)
+                        sub = mentions(env[r["id"]])
+                        out["callees"] |= sub["callees"]
+                        out["defs"] |= sub["defs"]
+                        out["ctors"] |= sub["ctors"]
                 if n.get("k") == "call" and n.get("ctor"):
                     out["ctors"].add(n["ctor"])
                 if n.get("k") in ("pexpr", "ptuplestruct", "pstruct") and n.get("path"):
